@@ -15,6 +15,7 @@ ObsOf(L, H, rn) ==
 Obs == LET L == LedgerOf(best) IN
        [stored |-> stored, orphans |-> orphans, best |-> best,
         invalid |-> {b \in stored : ~ValidInCtx(b)},
+        listable |-> Listable,
         now |-> ObsOf(L, Abs(best), 0),
         nudge |-> ObsOf(ApplyReward(L, "RN", Abs(best) + 1), Abs(best) + 1, RewardAmt(best))]
 IsCall(op) == op = "deliver"
